@@ -561,3 +561,123 @@ def run_traces(tier, name):
                                          f"final {tr['final_man']}/{tr['final_cot']}, sampled momenta in cotangent space: {tr['sampled_cot']})"}[inv]
             out.append((owner, f"{owner}:{sc['integ']}:{inv}", f"{_scname(sc)} (dir {tr['direction']}): {detail}", rp))
     return {"traces": traces, "failures": out, "states": states}
+
+
+# --------------------------------------------------------------------------------------
+# Part 3: exact discrete dynamics on Z_P x Z_P (FiniteFlow.tla), replayed into the real
+#         explicit integrators on a mock TractableFlowSystem
+# --------------------------------------------------------------------------------------
+FF_CFG = """SPECIFICATION Spec
+CONSTANTS
+  P = {p}
+  G <- GDef
+  Coeffs <- CoeffsDef
+  DEN = {den}
+  H1First = {h1first}
+  MaxN = {maxn}
+INVARIANT Reversible
+INVARIANT Bijective
+INVARIANT DirKept
+INVARIANT Palindromic
+INVARIANT PrintStep
+CHECK_DEADLOCK FALSE
+"""
+
+
+class FiniteFlowSystem:
+    """h1_flow / h2_flow over Z_p: the float time step is mapped back to its exact fraction k/den of the step."""
+
+    def __init__(self, p, g, den, step):
+        self.p, self.g, self.den, self.step = p, g, den, step
+        self.invden = pow(den % p, p - 2, p)
+        self.calls = []
+
+    def _t(self, dt):
+        k = dt / self.step * self.den
+        kr = round(k)
+        if abs(k - kr) > 1e-9:
+            raise MachineryError(f"time step {dt} is not a multiple of step/{self.den}")
+        return (kr * self.invden) % self.p
+
+    def h1_flow(self, state, dt):
+        t = self._t(dt)
+        self.calls.append(("h1", dt))
+        state.mom = np.array([(int(state.mom[0]) - t * self.g[int(state.pos[0])]) % self.p])
+
+    def h2_flow(self, state, dt):
+        t = self._t(dt)
+        self.calls.append(("h2", dt))
+        state.pos = np.array([(int(state.pos[0]) + t * int(state.mom[0])) % self.p])
+
+
+def finite_flow_cases(tier):
+    import random
+
+    rnd = random.Random(7)
+    cases = []
+    for p in ((5, 7) if tier == "quick" else (5, 7, 11, 13)):
+        g = [rnd.randrange(p) for _ in range(p)]
+        cases.append(dict(p=p, g=g, free=[], h1first=True, kind="leapfrog"))
+        cases.append(dict(p=p, g=g, free=[2], h1first=True, kind="composition"))        # free coefficient 2/16
+        cases.append(dict(p=p, g=g, free=[3, 5], h1first=False, kind="composition"))
+        if tier == "thorough":
+            cases.append(dict(p=p, g=g, free=[1, 2, 3], h1first=True, kind="composition"))
+    return cases
+
+
+def run_finite_flow(tier, name):
+    """Returns (violations, drifts, states, replayed)."""
+    import mici.integrators as I
+    from mici.states import ChainState
+
+    viol, drift, states, replayed = [], [], 0, 0
+    den = 16
+    for ci, c in enumerate(finite_flow_cases(tier)):
+        n = len(c["free"])
+        free = list(c["free"])
+        c1 = den // 2 - sum(free[n % 2::2])
+        c2 = den - 2 * sum(free[(n + 1) % 2::2])
+        half = free + [c1, c2]
+        coeffs = half + half[-2::-1]
+        d = tlc.fresh_dir(f"{name}_{ci}")
+        tlc.stage_specs(d, ["FiniteFlow.tla"])
+        src = (d / "FiniteFlow.tla").read_text().replace(
+            "=============================================================================",
+            f"GDef == {tlc.to_tla(c['g'])}\nCoeffsDef == {tlc.to_tla(coeffs)}\n"
+            "=============================================================================")
+        (d / "FiniteFlow.tla").write_text(src)
+        res = tlc.run_tlc(d, "FiniteFlow", FF_CFG.format(p=c["p"], den=den, h1first=tlc.to_tla(c["h1first"]),
+                                                          maxn=3 if tier == "quick" else 4),
+                          workers=2, timeout=600, cpus=2)
+        if not res.ok:
+            raise MachineryError(f"FiniteFlow.tla violates its own invariant {res.violated}: {c}\n{res.stdout[-1500:]}")
+        states += res.distinct
+        step = 0.25
+        for r in res.printed:
+            if not (isinstance(r, dict) and "next" in r):
+                continue
+            s0, s1 = r["s"], r["next"]
+            system = FiniteFlowSystem(c["p"], c["g"], den, step)
+            if c["kind"] == "leapfrog":
+                integ = I.LeapfrogIntegrator(system, step)
+            else:
+                integ = I.SymmetricCompositionIntegrator(system, [f / den for f in c["free"]], step_size=step,
+                                                         initial_h1_flow_step=c["h1first"])
+            state = ChainState(pos=np.array([s0["pos"]]), mom=np.array([s0["mom"]]), dir=s0["dir"])
+            new = integ.step(state)
+            replayed += 1
+            got = {"pos": int(new.pos[0]), "mom": int(new.mom[0]), "dir": int(new.dir)}
+            rp = {"engine": "finite-flow", "case": c, "state": s0}
+            if (int(state.pos[0]), int(state.mom[0]), int(state.dir)) != (s0["pos"], s0["mom"], s0["dir"]):
+                viol.append(("C02", f"C02:{c['kind']}:input-state-modified", f"{c['kind']} step modified its input state {s0}", rp))
+            # decisive: n steps, flip, n steps returns exactly (finite field: no tolerance)
+            back = new.copy()
+            back.dir = -back.dir
+            back = integ.step(back)
+            if (int(back.pos[0]), int(back.mom[0])) != (s0["pos"], s0["mom"]):
+                viol.append(("C02", f"C02:{c['kind']}:finite-field-round-trip",
+                             f"{c['kind']} (free coefficients {c['free']}/16, Z_{c['p']}): step, flip, step from {s0} ends at "
+                             f"({int(back.pos[0])}, {int(back.mom[0])})", rp))
+            if got != s1:
+                drift.append(f"finite flow {c['kind']} free={c['free']} p={c['p']}: real step from {s0} gives {got}, FiniteFlow.tla {s1}")
+    return viol, drift, states, replayed
